@@ -5,6 +5,8 @@
 #include "esl_ssi.h"
 #include <unistd.h>
 #include <sys/stat.h>
+#include <fcntl.h>
+#include <signal.h>
 
 #define IDX  "c06idx.ssi"
 #define HEXLIMIT 1500
@@ -15,9 +17,34 @@ static ESL_SSI    *SSI;
 static void cleanup_files(void) { remove(IDX); remove(IDX ".1"); remove(IDX ".2"); }
 static int  exists(const char *f) { struct stat st; return stat(f, &st) == 0; }
 
-static void h_case_begin(void) { cleanup_files(); }
+/* Watchdog: a lookup that never returns (e.g. a broken binary search) must not stall the whole run. A case may use
+ * HANG_SECS of wall clock; then the process records the hang in a marker file of the scratch directory and dies (the
+ * engine reports the case as a fault). After MAX_HANGS such cases the remaining ones are answered "skipped". */
+#define HANG_SECS 30
+#define MAX_HANGS 3
+#define HANGFILE "c06.hangs"
+static int skipping;
+static int hang_count(void) { FILE *fp = fopen(HANGFILE, "r"); int n = 0; if (fp) { if (fscanf(fp, "%d", &n) != 1) n = 0; fclose(fp); } return n; }
+static void on_alarm(int sig)
+{
+  char buf[16]; int n = hang_count() + 1, fd, len;
+  (void) sig;
+  len = snprintf(buf, sizeof(buf), "%d\n", n);
+  fd = creat(HANGFILE, 0644);
+  if (fd >= 0) { if (write(fd, buf, (size_t) len) < 0) {} close(fd); }
+  _exit(96);
+}
+
+static void h_case_begin(void)
+{
+  cleanup_files();
+  skipping = (hang_count() >= MAX_HANGS);
+  signal(SIGALRM, on_alarm);
+  alarm(HANG_SECS);
+}
 static void h_case_end(void)
 {
+  alarm(0);
   if (NS)  { esl_newssi_Close(NS); NS = NULL; }
   if (SSI) { esl_ssi_Close(SSI);   SSI = NULL; }
   cleanup_files();
@@ -48,6 +75,7 @@ static void h_op(void)
   const char *op = h_words[0];
   int status;
 
+  if (skipping) { h_out("skipped-after-%d-hangs", MAX_HANGS); return; }
   if (!strcmp(op, "new")) {
     if (NS)  { esl_newssi_Close(NS); NS = NULL; }
     if (SSI) { esl_ssi_Close(SSI);   SSI = NULL; }
@@ -105,8 +133,16 @@ static void h_op(void)
       h_out("%s file=%d tmp=%d n=%zu h=%016" PRIx64 "%s", h_status(status), present, tmp, n, fnv_bytes(b, n), b ? "" : " hex=-");
     free(b);
   }
-  else if (!strcmp(op, "open")) {
+  else if (!strcmp(op, "open") || !strcmp(op, "openraw")) {
     if (SSI) { esl_ssi_Close(SSI); SSI = NULL; }
+    if (!strcmp(op, "openraw")) {               /* the index file is given byte for byte (malformed-index stream) */
+      int64_t n; unsigned char *b; FILE *fp;
+      if (!h_arg("hex")) { h_out("bad-op"); return; }
+      b = h_unhex(h_arg("hex"), &n);
+      fp = fopen(IDX, "wb");
+      if (n > 0) fwrite(b, 1, (size_t) n, fp);
+      fclose(fp); free(b);
+    }
     status = esl_ssi_Open(IDX, &SSI);
     if (status != eslOK) { SSI = NULL; h_out("%s", h_status(status)); return; }
     h_out("ok flags=%" PRIu32 " offsz=%" PRIu32 " nfiles=%u nprimary=%" PRIu64 " nsecondary=%" PRIu64
